@@ -4,6 +4,8 @@
 package eng
 
 import (
+	"crypto/sha1"
+	"encoding/hex"
 	"fmt"
 	"os"
 	"path/filepath"
@@ -31,10 +33,30 @@ type Files struct {
 }
 
 var dirCounter int
+var dirCache = map[string]string{}
+
+func contentKey(f Files, processorsDir string) string {
+	h := sha1.New()
+	for _, m := range []map[string]string{f.Flows, f.Quotas, f.PathParams} {
+		for _, k := range SortedKeys(m) {
+			fmt.Fprintf(h, "%s\x00%s\x00", k, m[k])
+		}
+		h.Write([]byte{1})
+	}
+	h.Write([]byte(processorsDir))
+	return hex.EncodeToString(h.Sum(nil))
+}
 
 // Dir creates a fresh scratch root with flows/ quotas/ path_params/ and points the engine's
 // environment at it.  ProcessorsDir defaults to the repository's registry.
 func Dir(f Files, processorsDir string) (string, error) {
+	// identical configurations share one scratch directory (engines only read it); it is
+	// removed with the process's work directory
+	ck := contentKey(f, processorsDir)
+	if root, ok := dirCache[ck]; ok {
+		Point(root, processorsDir)
+		return root, nil
+	}
 	dirCounter++
 	root := filepath.Join(mc.WorkDir(), fmt.Sprintf("eng%d", dirCounter))
 	for sub, files := range map[string]map[string]string{"flows": f.Flows, "quotas": f.Quotas, "path_params": f.PathParams} {
@@ -49,6 +71,7 @@ func Dir(f Files, processorsDir string) (string, error) {
 		}
 	}
 	Point(root, processorsDir)
+	dirCache[ck] = root
 	return root, nil
 }
 
@@ -65,8 +88,11 @@ func Point(root, processorsDir string) {
 }
 
 // NewStream builds and initialises a real engine from the files.
-func NewStream(f Files) (*streams.Stream, string, error) {
-	root, err := Dir(f, "")
+func NewStream(f Files) (*streams.Stream, string, error) { return NewStreamP(f, "") }
+
+// NewStreamP is NewStream with an explicit processor-definitions directory.
+func NewStreamP(f Files, processorsDir string) (*streams.Stream, string, error) {
+	root, err := Dir(f, processorsDir)
 	if err != nil {
 		return nil, "", err
 	}
@@ -80,7 +106,16 @@ func NewStream(f Files) (*streams.Stream, string, error) {
 	return s, root, nil
 }
 
-func Remove(root string) { _ = os.RemoveAll(root) }
+// Remove is kept for callers that own a private directory; shared (cached) configuration
+// directories stay until the process exits.
+func Remove(root string) {
+	for _, r := range dirCache {
+		if r == root {
+			return
+		}
+	}
+	_ = os.RemoveAll(root)
+}
 
 var SharedState = lunar_context.NewMemoryState[[]byte]()
 
